@@ -41,8 +41,10 @@ TRUSTED_BASE = [
     "is first checked to round-trip alone under the same rdata style, and is dropped (counted) otherwise",
 ]
 ASSUMPTIONS = [
-    "$INCLUDE, $UNICODE/IDNA, force_* parameters of Reader (read_rrsets), non-IN zone classes and code points >= 0x80 "
-    "in zone text are outside the model",
+    "$UNICODE/IDNA, force_* parameters of Reader (read_rrsets), non-IN zone classes and code points >= 0x80 "
+    "in zone text are outside the model; $INCLUDE is modelled with the file system as a finite map name -> text (the "
+    "harness writes the files to a scratch directory under the system temp dir; a missing file is an OSError on both sides), "
+    "include trees up to 16 openings per file (model fuel)",
     "lossless style set = sorted, want_origin, default_ttl, deduplicate_names, name_just <= 0, ttl/rdclass/rdtype "
     "justification of either sign, base64/hex chunk size and space separators, want_generic, want_comments, omit_rdclass "
     "(zone class), origin/relativize of the name style; excluded by name: omit_ttl, truncate_crypto, override_rdclass, "
@@ -969,6 +971,41 @@ def _eval_case(ctx: Ctx, c: dict):
             bad = cname_violation(z)
             if bad is not None:
                 ctx.fail("C09/read/cname-and-other-data", f"after loading, {bad} holds a CNAME and other data", rep)
+    elif k == "include":
+        origin = [bytes.fromhex(x) for x in c["origin"]]
+        rel, allow = c["rel"], c["allow"]
+        text = bytes.fromhex(c["text"]).decode("latin-1")
+        files = {bytes.fromhex(a).decode("latin-1"): bytes.fromhex(b).decode("latin-1") for a, b in c["files"]}
+        la, za = impl_read_include(origin, rel, allow, text, files)
+        ctx.count("include." + ("allowed" if allow else "not-allowed"))
+        if la is not None:
+            fl = " ".join(f"{txt_hex(a)} {txt_hex(b)}" for a, b in files.items())
+            ctx.corr(f"c09.readinc {opt_name(origin)} {int(rel)} 0 {variant()['gfix']} {int(allow)} {txt_hex(text)} {fl}".rstrip(), la, c)
+            if la.startswith("err FOREIGN"):
+                ctx.fail("C09/include/foreign-exception:" + la.split(" ")[2], f"from_text raised {la} on {text!r} with {files!r}", rep)
+        if not allow:
+            if "$INCLUDE" in text.upper() and (la is None or not la.startswith("err SyntaxError")):
+                ctx.fail("C09/include/not-allowed-but-read", f"allow_include=False, yet {la} on {text!r}", rep)
+            return
+        for what in ("explicit", "inline"):
+            if c.get(what) is None:
+                continue
+            tb = bytes.fromhex(c[what]).decode("latin-1")
+            lb, zb = impl_read(origin, rel, False, tb)
+            if lb is not None:
+                ctx.corr(f"c09.read {opt_name(origin)} {int(rel)} 0 {variant()['gfix']} {txt_hex(tb)}", lb, c)
+            ctx.count("include.vs-" + what)
+            if (za is None) != (zb is None) or (za is None and la != lb):
+                ctx.fail(f"C09/include/{what}/load-differs", f"{la} with $INCLUDE / {lb} {what}: {text!r} {files!r} / {tb!r}", rep)
+            elif za is not None and not zones_equal(za, zb):
+                ctx.fail(f"C09/include/{what}/zones-differ",
+                         f"the $INCLUDE spelling {text!r} {files!r} and the {what} spelling {tb!r} load to different zones", rep)
+        if c.get("undefined_ttl") and za is not None:
+            ctx.fail("C09/include/undefined-ttl-accepted", f"a line without any TTL to inherit was accepted: {text!r} {files!r}", rep)
+        if za is not None:
+            bad = cname_violation(za)
+            if bad is not None:
+                ctx.fail("C09/read/cname-and-other-data", f"after loading, {bad} holds a CNAME and other data", rep)
     elif k == "zone":
         eval_zone_case(ctx, c, rep)
     else:
@@ -1226,6 +1263,225 @@ def expand_generate(line, origin_labels):
     return out
 
 
+
+# ------------------------------------------------------------------------------------------------
+# $INCLUDE file [origin]
+# ------------------------------------------------------------------------------------------------
+INC_DIR = "@D@"          # placeholder of the scratch directory in the texts of a case (model and replay see this)
+
+
+def impl_read_include(origin, rel, allow, text, files):
+    """dns.zone.from_text(..., allow_include=allow) with the include files written to a scratch directory outside
+    /repo and /verif (removed afterwards); `files` maps the names as written in the texts to contents"""
+    import shutil
+    import tempfile
+    d = tempfile.mkdtemp(prefix="c09inc-")
+    try:
+        for name, content in files.items():
+            path = name.replace(INC_DIR, d)
+            with open(path, "w", encoding="latin-1", newline="") as f:
+                f.write(content.replace(INC_DIR, d))
+        try:
+            z = dns.zone.from_text(text.replace(INC_DIR, d), origin=mk_name(origin), relativize=rel, check_origin=False,
+                                   allow_include=allow)
+        except OSError:
+            return "err OSError", None
+        except BaseException as e:
+            return "err " + err_family(e), None
+        dz = dump_zone(z)
+        if dz is None:
+            return None, z
+        return f"ok origin={'none' if z.origin is None else enc_name(z.origin)} {dz}", z
+    finally:
+        shutil.rmtree(d, ignore_errors=True)
+
+
+def _abs_under(text, cur):
+    """a master-file name completed with the origin `cur` (text of an absolute name)"""
+    if text == "@":
+        return cur
+    if text.endswith("."):
+        return text
+    return text + ("" if cur == "." else ".") + cur if cur != "." else text + "."
+
+
+class IncludeCase:
+    """A tree of zone-file items (records, $ORIGIN, $TTL, $INCLUDE file [origin]) with three renderings: the $INCLUDE
+    spelling (main text + files), the fully explicit spelling (absolute owners and RDATA names, every TTL written, no
+    directive) and the textually inlined spelling with explicit save/restore ($ORIGIN before/after the inlined text, $TTL
+    restored, an inherited owner / TTL spelled out where a directive cannot restore it).  The state rules are those of
+    Reader.read: $INCLUDE saves (current_origin, last_name, last_ttl, default_ttl) and the end of the file restores them."""
+
+    NAME_TYPES = ("NS", "PTR", "MX")
+
+    def __init__(self, rng, origin_text, depth_max=3):
+        self.rng = rng
+        self.zone = origin_text
+        self.k = 0
+        self.nfiles = 0
+        self.files = {}          # name -> content ($INCLUDE spelling)
+        self.main_items = self.gen_file(0, depth_max, main=True)
+
+    # --- generation
+    def gen_rr(self, allow_inherit=True):
+        rng = self.rng
+        self.k += 1
+        owner = None if (allow_inherit and rng.chance(1, 4)) else rng.choice([f"h{self.k}", f"h{self.k}", f"h{self.k}.d", "@", f"x{self.k}.{self.zone}"])
+        ttl = rng.choice([None, None, 60, 300, 86400])
+        ty = rng.choice(["A", "TXT", "TXT"]) if owner is None or owner == "@" else rng.choice(["A", "TXT", "NS", "PTR", "MX", "MX"])
+        if ty == "A":
+            rd = f"10.{rng.below(4)}.{self.k % 250}.{rng.below(250)}"
+        elif ty == "TXT":
+            rd = f"\"t{self.k}\""
+        else:
+            rd = rng.choice([f"t{self.k}", f"t{self.k}.deep", "@", f"t{self.k}.{self.zone}", "out.invalid."])
+        return ("rr", owner, ttl, ty, rd)
+
+    def gen_file(self, depth, depth_max, main=False):
+        rng = self.rng
+        items = []
+        if main:
+            pre = rng.below(4)
+            if pre in (0, 1):
+                items.append(("ttl", rng.choice([3600, 300, 0])))
+            if pre in (0, 2):
+                items.append(("soa", rng.choice([None, 7200]), rng.choice([300, 60, 5])))
+            items.append(("rr", "@", rng.choice([None, 86400, 1800]) if pre != 3 else 1800, "NS", "ns1"))
+        nitems = rng.range(2, 5)
+        included = 0
+        for i in range(nitems):
+            c = rng.below(10)
+            if c <= 4 or (i == 0 and not main and rng.chance(1, 2)):
+                items.append(self.gen_rr(allow_inherit=True))
+            elif c == 5:
+                items.append(("origin", rng.choice(["sub", "deep." + self.zone, "sibling.invalid.", self.zone, "b.c"])))
+            elif c == 6:
+                items.append(("ttl", rng.choice([7, 120, 0, 99999])))
+            elif depth < depth_max and (c >= 7) and included < 2:
+                included += 1
+                child = self.gen_file(depth + 1, depth_max)
+                org = rng.choice([None, None, "branch", "branch." + self.zone, "leaf.twig", "sibling.invalid.", "@"]) if not rng.chance(1, 3) else rng.choice(["branch", "inc"])
+                items.append(("include", child, org, rng.choice(["", "", " ; c"]), rng.chance(1, 4)))
+            else:
+                items.append(self.gen_rr())
+        if main or rng.chance(2, 3):
+            # lines after the last include that lean on the parent's state: relative owner, inherited owner, no TTL
+            items.append(("rr", f"www{self.k}", None, "A", "192.0.2.7"))
+            items.append(("rr", None, None, "TXT", "\"after\""))
+            items.append(("rr", f"m{self.k}", None, "MX", "mail"))
+        return items
+
+    # --- the reference walk
+    def render(self):
+        """returns (main_text, files, explicit_lines | None, inline_lines | None); None when the reference finds a line
+        whose TTL is undefined (both spellings must then be refused)"""
+        self.files = {}
+        self.nfiles = 0
+        st = {"cur": self.zone, "last_name": self.zone, "default": None, "last": None}
+        self.explicit = []
+        self.inline = []
+        self.undefined_ttl = False
+        self.b2_explicit_ttl = False
+        self.b2_owner_dirty = False
+        main = self.walk(self.main_items, st)
+        text = "\n".join(main) + "\n"
+        if self.undefined_ttl:
+            return text, self.files, None, None
+        return text, self.files, self.explicit, self.inline
+
+    def walk(self, items, st):
+        a = []
+        for it in items:
+            kind = it[0]
+            if kind == "ttl":
+                a.append(f"$TTL {it[1]}")
+                self.inline.append(f"$TTL {it[1]}")
+                st["default"] = it[1]
+            elif kind == "origin":
+                a.append(f"$ORIGIN {it[1]}")
+                self.inline.append(f"$ORIGIN {it[1]}")
+                st["cur"] = _abs_under(it[1], st["cur"])
+            elif kind == "soa":
+                _, t, minimum = it
+                line = f"@ {'' if t is None else str(t) + ' '}IN SOA ns1 hostmaster 1 2 3 4 {minimum}"
+                a.append(line)
+                self.inline.append(line)
+                if t is not None:
+                    eff = t
+                    st["last"] = t
+                elif st["default"] is not None:
+                    eff = st["default"]
+                elif st["last"] is not None:
+                    eff = st["last"]
+                else:
+                    eff = minimum
+                if st["default"] is None:
+                    st["default"] = minimum
+                owner = st["cur"]
+                st["last_name"] = owner
+                self.explicit.append(f"{owner} {eff} IN SOA {_abs_under('ns1', st['cur'])} {_abs_under('hostmaster', st['cur'])} 1 2 3 4 {minimum}")
+            elif kind == "rr":
+                _, owner, ttl, ty, rd = it
+                abs_owner = st["last_name"] if owner is None else _abs_under(owner, st["cur"])
+                zl = self.zone.lower()
+                if not (abs_owner.lower() == zl or abs_owner.lower().endswith("." + zl)):
+                    # out of zone: the owner is remembered, the rest of the line is eaten unread (no TTL bookkeeping)
+                    st["last_name"] = abs_owner
+                    ttl_txt = "" if ttl is None else f"{ttl} "
+                    rd_txt = ("10 " if ty == "MX" else "") + rd
+                    a.append(f"{'' if owner is None else owner} {ttl_txt}IN {ty} {rd_txt}")
+                    b2_owner = abs_owner if (owner is None and self.b2_owner_dirty) else owner
+                    self.b2_owner_dirty = False
+                    self.inline.append(f"{'' if b2_owner is None else b2_owner} {ttl_txt}IN {ty} {rd_txt}")
+                    continue
+                if ttl is not None:
+                    eff = ttl
+                    st["last"] = ttl
+                elif st["default"] is not None:
+                    eff = st["default"]
+                elif st["last"] is not None:
+                    eff = st["last"]
+                else:
+                    eff = None
+                    self.undefined_ttl = True
+                st["last_name"] = abs_owner
+                if ty in self.NAME_TYPES:
+                    abs_rd = ("10 " if ty == "MX" else "") + _abs_under(rd, st["cur"])
+                    rd_txt = ("10 " if ty == "MX" else "") + rd
+                else:
+                    abs_rd = rd_txt = rd
+                ttl_txt = "" if ttl is None else f"{ttl} "
+                a.append(f"{'' if owner is None else owner} {ttl_txt}IN {ty} {rd_txt}")
+                self.explicit.append(f"{abs_owner} {eff} IN {ty} {abs_rd}")
+                b2_owner = owner
+                if owner is None and self.b2_owner_dirty:
+                    b2_owner = abs_owner
+                self.b2_owner_dirty = False
+                b2_ttl = ttl_txt if not (ttl is None and self.b2_explicit_ttl) else f"{eff} "
+                self.inline.append(f"{'' if b2_owner is None else b2_owner} {b2_ttl}IN {ty} {rd_txt}")
+            elif kind == "include":
+                _, child, org, trail, no_final_nl = it
+                name = f"{INC_DIR}/f{self.nfiles}.zone"
+                self.nfiles += 1
+                a.append(f"$INCLUDE {name}{'' if org is None else ' ' + org}{trail}")
+                saved = dict(st)
+                if org is not None:
+                    st["cur"] = _abs_under(org, st["cur"])
+                    self.inline.append(f"$ORIGIN {st['cur']}")
+                lines = self.walk(child, st)
+                self.files[name] = "\n".join(lines) + ("" if (no_final_nl and lines) else "\n")
+                # the end of the included file: everything saved comes back
+                st.clear()
+                st.update(saved)
+                self.inline.append(f"$ORIGIN {st['cur']}")
+                if st["default"] is not None:
+                    self.inline.append(f"$TTL {st['default']}")
+                else:
+                    self.b2_explicit_ttl = True
+                self.b2_owner_dirty = True
+        return a
+
+
 def mutate_text(rng, text):
     """malformed stream: local damage to a well-formed zone text"""
     if not text:
@@ -1456,6 +1712,29 @@ def generate(ctx: Ctx, scale: int, rng, thorough=False):
                                      f"{name} {dns.rdatatype.to_text(rds.rdtype)} loaded with TTL {rds.ttl}, expected {expected} "
                                      f"(default {default}, last stated {last}) from {ta!r}", {"kind": "read", "case": c})
 
+    # --- $INCLUDE file [origin]: nested up to 3 deep, both forms, $ORIGIN/$TTL changes inside the included files,
+    # relative names / inherited owners / TTL-less lines after the include returns; against the fully explicit spelling and
+    # the textually inlined spelling with explicit save/restore; allow_include on and off; a missing file
+    for ii in range(n(90)):
+        origin = rng.choice(ORIGINS[:3])
+        rel = rng.chance(1, 2)
+        ic = IncludeCase(rng, name_text(origin))
+        text, files, explicit, inline = ic.render()
+        if not files:
+            continue
+        allow = not (ii % 9 == 8)
+        fl = [[l1(a).hex(), l1(b).hex()] for a, b in files.items()]
+        if ii % 17 == 16:
+            fl = fl[:-1]          # the last file does not exist
+            explicit = inline = None
+        c = {"kind": "include", "origin": hexl(origin), "rel": rel, "allow": allow, "text": l1(text).hex(), "files": fl,
+             "explicit": None if explicit is None else l1("\n".join(explicit) + "\n").hex(),
+             "inline": None if inline is None else l1("\n".join(inline) + "\n").hex(),
+             "undefined_ttl": bool(ic.undefined_ttl) and ii % 17 != 16}
+        ctx.case(("include", text, tuple(map(tuple, fl)), rel, allow), sample=c)
+        ctx.count("include.files%d" % max(1, min(3, len(files))))
+        eval_case(ctx, c)
+
     # --- "$ORIGIN-relative versus absolute names" for the argument of $ORIGIN itself (RFC 1035 5.1: a relative
     # domain name in a master file, the $ORIGIN argument included, is completed with the current origin; repaired in
     # c444c98, witness corpus/C09/relative-origin-directive.json kept as regression case)
@@ -1592,6 +1871,8 @@ LEVEL = {
             "relative vs absolute names); out-of-zone owners ignored; CNAME exclusivity of every load; $GENERATE index = its expansion line and the $GENERATE line = the text of its expansion from any reader state, also after any run of "
             "$ORIGIN directives (current origin distinct from the zone origin: names completed with the former, stored relative to the latter); the TTL of a line that states none: one rule for _rr_line and _generate_line (default TTL first, last stated TTL second) and "
             "a TTL-less $GENERATE line = its TTL-less expansion incl. TTLs (generate_eq_expansion_inherited_ttl); "
+            "$INCLUDE file [origin] (saved_state push/pop inside the zone-independent parser): an included file of record lines adds its records under the "
+            "include origin and hands the parent back exactly its state (include_restores_parent), versus the inlined spelling (include_vs_inline); "
             "and read_write_lossless: write-then-read is the identity for EVERY lossless style of the model — sorted, want_origin ($ORIGIN, also "
             "read back without being given the origin), default_ttl/$TTL (any value incl. 0), deduplicate_names, owner left-justification and "
             "either justification of the TTL/class/type columns, want_comments, omit_rdclass, want_generic, name-style origin/relativize, hex "
